@@ -2,6 +2,7 @@
 from checks.tsutil import *
 
 ID = 'C17'
+LEAN_MODULES = ['C17', 'C17b']
 MODEL_IS_SPEC = True          # the property IS "behaves like the reference model": a disagreement is a violation
 SPEC_EXEMPT = ('kslist',)     # the keyspace list is only constrained (oracle2), not determined, by the reference model
 RULE = ('one case = one backend (in-memory MemStore, SqliteStorage on a file, LmdbStorage in a directory; the same call sequence is generated for all three) and 1-60 Storage calls over 3 keyspaces: '
@@ -13,7 +14,7 @@ ASSUMPTIONS = ['calls outside the contract are not generated (remove_tombstones 
                'LMDB map size is 10 MiB and cannot be configured: listed as known finding F2 (replayed on every run); the GENERATED cases keep their payload totals below it so that the rest of the backend is still exercised',
                'SQLite/LMDB internals and real power-loss durability are not modelled; reopen = close + open of the same files']
 TRUSTED_BASE = ['correspondence: dcharness (real MemStore / SqliteStorage / LmdbStorage through the Storage trait) vs dcdriver (Datacake.Storage reference model)']
-THEOREM_NOTE = 'Datacake.Storage (Model/Storage.lean): put/multiPut/markTombstone/markManyTombstone/removeTombstones/get/multiGet/iterMetadata/listOk'
+THEOREM_NOTE = 'Datacake.Storage (Model/Storage.lean): put/multiPut/markTombstone/markManyTombstone/removeTombstones/get/multiGet/iterMetadata/listOk; Props/C17b: the reference model refines the abstract map keyspace -> id -> absent | tombstone | live for every legal call history (refines, run_wf, step_refines, get_abs, iter_abs, iter_nodup)'
 JOBS = 8
 IDS = [0, 1, 2, 2 ** 63 - 1, 2 ** 63, 2 ** 64 - 1]
 BACKENDS = ['mem', 'sqlite', 'lmdb']
